@@ -43,7 +43,9 @@ func gen(tier string, seed int64) []hx.Scenario {
 		out = append(out, hx.Scenario{Name: "pair-lengths", Cfg: fmt.Sprintf("k=%d", k), Run: func(x *hx.Ctx) { pairLengths(x, k) }})
 		out = append(out, hx.Scenario{Name: "pair-api", Cfg: fmt.Sprintf("k=%d", k), Run: func(x *hx.Ctx) { pairAPI(x, k) }})
 		if k <= 4 {
-			out = append(out, hx.Scenario{Name: "pair-forger-linear", Cfg: fmt.Sprintf("k=%d", k), Run: func(x *hx.Ctx) { forgerLinear(x, k) }})
+			for _, bind := range []string{"none", "X", "Y"} {
+				out = append(out, hx.Scenario{Name: "pair-forger-linear", Cfg: fmt.Sprintf("k=%d bind=%s", k, bind), Run: func(x *hx.Ctx) { forgerLinear(x, k, bind) }})
+			}
 		}
 		for pi, p := range perms {
 			if pi%3 != 0 && k > 3 {
@@ -240,7 +242,9 @@ type fEga5 struct {
 // forgerLinear: the output is NOT a permutation of re-encryptions: Xbar_0 = X_0 + X_1 + b_0 G, Xbar_i = X_i + b_i G (i>0).
 // A prover outside the package builds a transcript that satisfies equations (33)-(35) and attaches an
 // honest simple-shuffle proof about unrelated vectors (DESIGN.md Appendix A).
-func forgerLinear(x *hx.Ctx, k int) {
+// bind: which side of the embedded simple shuffle the forger ties to the transcript ("none", "X": R_i = A_i + lambda B_i only,
+// "Y": S_i = C_i + lambda D_i only). Every variant must be rejected.
+func forgerLinear(x *hx.Ctx, k int, bind string) {
 	s := x.S
 	r := s.RandomStream()
 	G := s.Point().Base()
@@ -261,13 +265,19 @@ func forgerLinear(x *hx.Ctx, k int) {
 	Yb[0] = s.Point().Add(Yb[0], Y[1])
 	forger := func(ctx proof.ProverContext) error {
 		ws := make([]kyber.Scalar, k)
+		as := make([]kyber.Scalar, k)
+		us := make([]kyber.Scalar, k)
+		cs := make([]kyber.Scalar, k)
 		var gamma, lam1 kyber.Scalar
-		if err := ctx.PriRand(ws, &gamma, &lam1); err != nil {
+		if err := ctx.PriRand(ws, as, us, cs, &gamma, &lam1); err != nil {
 			return err
 		}
 		p1 := &fEga1{Gamma: s.Point().Mul(gamma, G), A: make([]kyber.Point, k), C: make([]kyber.Point, k), U: make([]kyber.Point, k), W: make([]kyber.Point, k)}
 		for i := 0; i < k; i++ {
-			p1.A[i], p1.C[i], p1.U[i] = s.Point().Pick(r), s.Point().Pick(r), s.Point().Pick(r)
+			p1.A[i], p1.C[i], p1.U[i] = s.Point().Mul(as[i], G), s.Point().Mul(cs[i], G), s.Point().Mul(us[i], G)
+			if bind == "none" {
+				p1.A[i], p1.C[i], p1.U[i] = s.Point().Pick(r), s.Point().Pick(r), s.Point().Pick(r)
+			}
 			p1.W[i] = s.Point().Mul(s.Scalar().Mul(gamma, ws[i]), G)
 		}
 		p1.Lambda1, p1.Lambda2 = s.Point().Mul(lam1, G), s.Point().Mul(lam1, H)
@@ -284,8 +294,10 @@ func forgerLinear(x *hx.Ctx, k int) {
 		}
 		sigma[1] = s.Scalar().Sub(v2.Zrho[1], v2.Zrho[0]) // sigma = M^{-T} rho for M = I + E_01
 		p3 := &fEga3{D: make([]kyber.Point, k)}
+		ds := make([]kyber.Scalar, k)
 		for i := 0; i < k; i++ {
-			p3.D[i] = s.Point().Mul(s.Scalar().Mul(gamma, s.Scalar().Sub(sigma[i], ws[i])), G)
+			ds[i] = s.Scalar().Mul(gamma, s.Scalar().Sub(sigma[i], ws[i]))
+			p3.D[i] = s.Point().Mul(ds[i], G)
 		}
 		if err := ctx.Put(p3); err != nil {
 			return err
@@ -301,13 +313,34 @@ func forgerLinear(x *hx.Ctx, k int) {
 		if err := ctx.Put(&fEga5{Zsigma: sigma, Ztau: tau}); err != nil {
 			return err
 		}
+		// vectors of the embedded simple shuffle: y must be gamma * (a permutation of x)
 		rr := make([]kyber.Scalar, k)
 		sv := make([]kyber.Scalar, k)
-		for i := range rr {
-			rr[i] = s.Scalar().Pick(r)
-		}
-		for i := range sv {
-			sv[i] = s.Scalar().Mul(gamma, rr[(i+1)%k])
+		switch bind {
+		case "X":
+			// x_i = a_i + lambda*(rho_i - u_i): X_i = A_i + lambda*B_i holds, the Y side is unrelated to C, D
+			for i := range rr {
+				rr[i] = s.Scalar().Add(as[i], s.Scalar().Mul(v4.Zlambda, s.Scalar().Sub(v2.Zrho[i], us[i])))
+			}
+			for i := range sv {
+				sv[i] = s.Scalar().Mul(gamma, rr[(i+1)%k])
+			}
+		case "Y":
+			// y_i = c_i + lambda*d_i: Y_i = C_i + lambda*D_i holds, the X side is unrelated to A, B
+			for i := range sv {
+				sv[i] = s.Scalar().Add(cs[i], s.Scalar().Mul(v4.Zlambda, ds[i]))
+			}
+			ginv := s.Scalar().Inv(gamma)
+			for i := range sv {
+				rr[(i+1)%k] = s.Scalar().Mul(ginv, sv[i])
+			}
+		default:
+			for i := range rr {
+				rr[i] = s.Scalar().Pick(r)
+			}
+			for i := range sv {
+				sv[i] = s.Scalar().Mul(gamma, rr[(i+1)%k])
+			}
 		}
 		var ss shuffle.SimpleShuffle
 		ss.Init(s, k)
